@@ -479,6 +479,13 @@ theorem applyAct_invS_cloneField (s : State) (fh fw : List Nat) (k : Nat) (h : s
   · exact InvS_incStrong_gen h rfl rfl (by simp) (fun t => by simp)
   · exact h
 
+theorem applyAct_invS_downgradeField (s : State) (fh fw : List Nat) (k : Nat) (h : s.InvS) :
+    (applyAct s fh fw (.downgradeField k)).InvS := by
+  simp only [applyAct]
+  split
+  · exact InvS_incWeak_gen h rfl rfl (by simp) (fun t => by simp)
+  · exact h
+
 theorem applyAct_invS_dropValue (s : State) (fh fw : List Nat) (i : Nat) (h : s.InvS) :
     (applyAct s fh fw (.dropValue i)).InvS := by
   simp only [applyAct]
@@ -1110,6 +1117,7 @@ theorem applyAct_invS (s : State) (fh fw : List Nat) (a : Act) (hI : s.Inv) (hS 
   | setShallow q => exact applyAct_invS_setShallow s fh fw q hS
   | upgradeField k => exact applyAct_invS_upgradeField s fh fw k hS
   | cloneField k => exact applyAct_invS_cloneField s fh fw k hS
+  | downgradeField k => exact applyAct_invS_downgradeField s fh fw k hS
 
 /-- `InvS` is preserved by every top-level operation -/
 theorem applyOp_invS (s : State) (op : Op) (hI : s.Inv) (hS : s.InvS) : (applyOp s op).InvS := by
